@@ -63,10 +63,10 @@ stage = [
     fs('dtor', r'CDS_EXPORT_API smr::~smr\(\)'),
     fs('alloc_thread_data', r'CDS_EXPORT_API smr::thread_record\* smr::alloc_thread_data\(\)'),
     fs('free_thread_data', r'CDS_EXPORT_API void smr::free_thread_data\('),
-    fs('copy_hazards', r'inline void copy_hazards\('),
-    fs('retire_data', r'inline size_t retire_data\(', rewrites=[
-        dict(lit='auto hp_begin = plist.begin();', to='void* const* hp_begin = plist.begin();', count=1, why=AUTO),
-        dict(lit='auto hp_end = plist.end();', to='void* const* hp_end = plist.end();', count=1, why=AUTO)]),
+    # the whole anonymous namespace in front of scan() (hp_vector, copy_hazards, retire_data and whatever helper they use) as ONE fragment
+    fs('scan_helpers', r'namespace \{\s*typedef std::vector<void\*, allocator<void\*>> hp_vector;', body_only=True, rewrites=[
+        dict(lit='auto hp_begin = plist.begin();', to='void* const* hp_begin = plist.begin();', count='0+', why=AUTO),
+        dict(lit='auto hp_end = plist.end();', to='void* const* hp_end = plist.end();', count='0+', why=AUTO)]),
     fs('scan', r'CDS_EXPORT_API void smr::scan\('),
     fs('help_scan', r'CDS_EXPORT_API void smr::help_scan\('),
     fs('detach_all_thread', r'CDS_EXPORT_API void smr::detach_all_thread\(\)'),
@@ -94,6 +94,9 @@ GROUPS = [
     grp('scan_c03_keep', 'h_scan_c03_keep', ['C03'], [r'C03\.kept_when_protected'], SCAN, tier='thorough'),
     grp('retire', 'h_retire', ['C03', 'C02'], [r'C03\.retire_keeps_room', r'C03\.retire_conserves'], ['cds::gc::DHP::retire(T*, void(*)(void*))'] + SCAN, tier='thorough'),
     grp('help_scan', 'h_help_scan', ['C03'], [r'C03\.help_scan_conserves', r'C03\.help_scan_empties_source'], ['dhp::smr::help_scan', 'retired_array::fini'] + SCAN, tier='thorough', two=True),
+    dict(grp('retire_data_wide', 'h_retire_data_wide', ['C02', 'C03'], [r'C02\.no_free_while_guarded', r'C03\.freed_when_unprotected'], ['retire_data (search of the sorted hazard list)', 'retired_array::repush', 'retired_ptr::free'],
+              unwind={'quick': 40, 'thorough': 40}), defines=['VX_VEC_MAX=40', 'VX_WIDE_N=36'],
+         bounded='sorted hazard list of any length <= 36 with symbolic contents (duplicates allowed), one retired pointer equal to any of its entries or to none'),
     grp('dtor', 'h_dtor', ['C03'], [r'C03\.dtor_disposes_all'], ['dhp::smr::~smr', 'retired_array::fini', 'thread_hp_storage::clear'], two=True),
     grp('detach_reuse', 'h_detach_reuse', ['C03', 'C02'], [r'C03\.detach_conserves', r'C03\.detach_releases_record', r'C03\.reuse'],
         ['dhp::smr::free_thread_data', 'dhp::smr::alloc_thread_data', 'retired_array::init', 'thread_hp_storage::init/clear'] + SCAN),
@@ -115,10 +118,10 @@ UNIT = dict(
              groups=['scan_c02'], expect_fail=r'C02\.no_free_while_guarded'),
         dict(name='scan_stops_after_first_extension_block', props=['C02'], target='scan', lit='block = block->next_block_ )', to='block = nullptr )', count=1,
              groups=['scan_c02'], expect_fail=r'C02\.no_free_while_guarded', tier='thorough'),
-        dict(name='copy_hazards_drops_last_cell', props=['C02'], target='copy_hazards', lit='for ( guard const* end = arr + size; arr != end; ++arr ) {', to='for ( guard const* end = arr + size - 1; arr != end; ++arr ) {', count=1,
+        dict(name='copy_hazards_drops_last_cell', props=['C02'], target='scan_helpers', lit='for ( guard const* end = arr + size; arr != end; ++arr ) {', to='for ( guard const* end = arr + size - 1; arr != end; ++arr ) {', count=1,
              groups=['scan_c02'], expect_fail=r'C02\.no_free_while_guarded'),
         dict(name='dtor_leaves_retired', quick=True, props=['C03'], target='dtor', lit='p != retired.current_cell_; ++p ) {', to='p != retired.current_cell_ && p + 1 != retired.current_cell_; ++p ) {', count=1, groups=['dtor'], expect_fail=r'C03\.dtor_disposes_all'),
-        dict(name='scan_forgets_repush', props=['C03'], target='retire_data', lit='stg.repush( p );', to=';', count=1, groups=['scan_c03_keep'], expect_fail=r'C03\.kept_when_protected'),
+        dict(name='scan_forgets_repush', props=['C03'], target='scan_helpers', lit='stg.repush( p );', to=';', count=1, groups=['scan_c03_keep'], expect_fail=r'C03\.kept_when_protected'),
     ],
     trusted_base=[
         'CBMC 6.11 C++ front end (partial)',
